@@ -1513,7 +1513,10 @@ zshPrefixLoop:
 		// Note that in Zsh, the short form like $#name is allowed too.
 		switch p.r {
 		case '#':
-			if p.paramNameStart() {
+			if b := p.peek(); pe.Short && (b == utf8.RuneSelf || b == '"') {
+				// "$#" at the end of the input or before a quote
+				// is the parameter "#".
+			} else if p.paramNameStart() {
 				pe.Length = true
 			}
 		case '%':
